@@ -540,12 +540,18 @@ theorem unsupported_options_dropped_consistently (tbl : List OptionRow) (ht : Ta
         fromString C s.kind t = .ok w) →
       mediaOptions C tbl dflt (path ++ mediaQuery C tbl use (fun j => some (dflt j))
         (withTiming tbl ast depth of) ovs) = .ok res → res i = dflt i) := by
-  obtain ⟨o0, o1, o5, _, _, hof, h5⟩ := serve_stages C K tbl m mode args dflt of hs
+  obtain ⟨o0, o2, o5, _, h1, hof, h5⟩ := serve_stages C K tbl m mode args dflt of hs
+  obtain ⟨hast, _, _, _⟩ := checkOptionValues_ok C K tbl _ o2 h1
   have hval : of i = none ∨ of i = some (dflt i) := by
     rw [hof]
     rcases removeUnused_cases K tbl mode o5 i with h | h
     · exact Or.inl h
-    · right; rw [h, h5 i r hr hh, removeUnsupported_dropped K tbl m.features dflt o1 i r hr hdrop]
+    · right
+      rw [h, h5 i r hr hh]
+      -- the value check only ever rewrites availabilityStartTime
+      rcases astStep_ok C tbl _ o2 hast i with h2 | ⟨hi, _⟩
+      · rw [h2, removeUnsupported_dropped K tbl m.features dflt o0 i r hr hdrop]
+      · exact absurd hi hnt.1
   have hwt : withTiming tbl ast depth of i = of i := by
     unfold withTiming; simp [hnt.1, hnt.2]
   have hnotin : ∀ use t, (r.cgi, t) ∉ genParams C tbl (some use) mediaExclude true (fun j => some (dflt j))
@@ -628,8 +634,8 @@ theorem request_to_media_same_value (hC : DtCodecLaws C) (tbl : List OptionRow) 
             mediaExclude.contains r.fieldName = false → ValEquiv (res i) v) ∧
           ((timed tbl timing of i = none ∨ r.usage &&& use = 0 ∨
             mediaExclude.contains r.fieldName = true) → res i = dflt i)) := by
-  obtain ⟨o0, o1, o5, h0, h1, hof, h5⟩ := serve_stages C K tbl m mode args dflt of hs
-  obtain ⟨hast, hdrmok, _, _⟩ := checkOptionValues_ok C K tbl o0 o1 h1
+  obtain ⟨o0, o2, o5, h0, h1, hof, h5⟩ := serve_stages C K tbl m mode args dflt of hs
+  obtain ⟨hast, hdrmok, _, _⟩ := checkOptionValues_ok C K tbl _ o2 h1
   -- every value of an accepted request that can be written to a media URL is canonical
   have hofcanon : ∀ i : Nat, ∀ r : OptionRow, ∀ v, tbl[i]? = some r → of i = some v →
       r.usage &&& use ≠ 0 → v ≠ dflt i → Canonical r.kind v := by
@@ -642,13 +648,15 @@ theorem request_to_media_same_value (hC : DtCodecLaws C) (tbl : List OptionRow) 
       · rw [h] at hv; cases hv
       · rw [h] at hv; exact Option.some.inj hv
     rw [h5 i r hr hnh] at hv5
-    have hv1 : o1 i = v := by
-      rcases removeUnsupported_cases K tbl m.features dflt o1 i with h | h
-      · rw [h] at hv5; exact hv5
-      · rw [h] at hv5; exact absurd hv5.symm hd
-    rcases astStep_ok C tbl o0 o1 hast i with h | ⟨hi, h | ⟨d, d', _, _, h⟩⟩
-    · -- untouched by the value check: a default or a parsed argument
-      rw [h] at hv1
+    rcases astStep_ok C tbl _ o2 hast i with h | ⟨hi, h | ⟨d, d', _, _, h⟩⟩
+    · -- untouched by the value check: a reset to the default, a default or a parsed argument
+      have hv1 : removeUnsupported K tbl m.features dflt o0 i = v := by rw [← h]; exact hv5
+      have hv0 : o0 i = v := by
+        rcases removeUnsupported_cases K tbl m.features dflt o0 i with h' | h'
+        · rw [h'] at hv1; exact hv1
+        · rw [h'] at hv1; exact absurd hv1.symm hd
+      have hvf : removeUnsupported K tbl m.features dflt o0 i = v := hv1
+      have hv1 := hv0
       rcases convertOptions_origin C tbl _ dflt o0 h0 i with hdf | ⟨kv, hkv, r', hf, hr', hfs⟩
       · rw [hdf] at hv1; exact absurd hv1.symm hd
       · rw [hr] at hr'; cases hr'
@@ -660,13 +668,13 @@ theorem request_to_media_same_value (hC : DtCodecLaws C) (tbl : List OptionRow) 
           subst hl
           have hk := fromString_drm_kind C r.kind kv.2 l hfs
           have hidx := hfacts.drmRow i r hr hk
-          apply drmNamesOk_spec tbl o0 hdrmok l
-          unfold getField; rw [hidx]; exact hv1
+          apply drmNamesOk_spec tbl _ hdrmok l
+          unfold getField; rw [hidx]; exact hvf
     · obtain ⟨hk, hdf⟩ := hfacts.astRow i r hi hr
-      rw [h.2] at hv1; rw [← hv1]
+      rw [h.2] at hv5; rw [← hv5]
       exact globalDefault_ast_canonical C tbl i r hr hk hdf
     · obtain ⟨hk, _⟩ := hfacts.astRow i r hi hr
-      rw [h] at hv1; rw [← hv1, hk]; trivial
+      rw [h] at hv5; rw [← hv5, hk]; trivial
   apply media_side_same_value C hC tbl ht use dflt (timed tbl timing of) ovs hovs path hp ?_ hov
   intro i r v hr hv hu _ hd _
   cases htm : timing with
